@@ -108,7 +108,11 @@ def run(repo="/repo", build=None, twin=False, rlimit=None, threads=16, extra_arg
         if kind == "front-end":
             front_end.append(ent)
         errors.append(ent)
+    # ---- resource-limit failures are tool limits, not verdicts: retry each such function alone with a larger budget
+    if not twin:
+        errors = retry_rlimit(errors, out_rs, build, fn_lines, label_lines, res)
     res["errors"] = errors
+    res["lost_fns"] = meta.get("lost_fns", {})
     res["front_end_errors"] = front_end
     vr = (oj.get("verification-results") or {})
     res["verified"] = vr.get("verified")
@@ -126,6 +130,55 @@ def run(repo="/repo", build=None, twin=False, rlimit=None, threads=16, extra_arg
     # per-function smt times
     res["fn_times"] = _fn_times(oj.get("times-ms"))
     return res
+
+
+def module_at(lines, lineno):
+    """module path (as Verus names it) enclosing a generated line."""
+    stack = []
+    depth = 0
+    for no, line in enumerate(lines[:lineno], 1):
+        m = re.match(r"\s*pub mod (\w+)\s*\{", line)
+        if m:
+            stack.append((m.group(1), depth))
+        depth += line.count("{") - line.count("}")
+        while stack and depth <= stack[-1][1]:
+            stack.pop()
+    return "::".join(x[0] for x in stack)
+
+
+def retry_rlimit(errors, out_rs, build, fn_lines, label_lines, res):
+    rl = {}
+    for e in errors:
+        if e["kind"] == "rlimit" and e["fn"]:
+            rl.setdefault(e["fn"], e)
+    if not rl:
+        return errors
+    lines = open(out_rs).read().split("\n")
+    res["rlimit_retries"] = {}
+    for fn, e in list(rl.items())[:8]:
+        mod = module_at(lines, e["line"] or 1)
+        parts = fn.split("::")
+        name = parts[-1]
+        ty = None
+        for p_ in parts[:-1]:
+            if p_[:1].isupper():
+                ty = p_
+                break
+        pat = "*%s::%s*" % (ty, name) if ty else "*%s*" % name
+        cmd = ["verus", out_rs, "--triggers-mode", "silent", "--verify-only-module", mod, "--verify-function", pat, "--rlimit", "60",
+               "--error-format=json", "--output-json"]
+        v = subprocess.run(cmd, capture_output=True, text=True, cwd=build)
+        ok = False
+        try:
+            oj = json.loads(v.stdout[v.stdout.index("{"):])
+            vr = oj.get("verification-results") or {}
+            ok = vr.get("errors") == 0 and (vr.get("verified") or 0) > 0
+        except Exception:
+            ok = False
+        res["rlimit_retries"][fn] = "verified alone with rlimit 60" if ok else "still failing alone"
+        if ok:
+            errors = [x for x in errors if not (x["fn"] == fn and x["kind"] == "rlimit")]
+    return errors
 
 
 VERIF_KINDS = [
